@@ -248,6 +248,9 @@ func received(v *runView) (byHandler []rcv, byClient []rcv) {
 	}
 	for _, o := range v.ops {
 		if (o.Kind == "Recv" || o.Kind == "Invoke") && strings.HasPrefix(o.Res, "msg:") {
+			if strings.HasPrefix(o.Res, "msg:bad") {
+				continue // RawRecv handed out an undecodable payload as it is; like MsgRecv's decode error it is not counted as a message
+			}
 			byClient = append(byClient, rcv{Line: o.End, Tag: o.Res[4:], By: o.T, R: o.R})
 		}
 	}
@@ -342,7 +345,8 @@ func monDelivery(v *runView) (out []finding) {
 	// isolation (C02): whatever a call of RPC r receives was sent on r's stream
 	for _, x := range byC {
 		sid := v.rpcSid[x.R]
-		if !strings.HasPrefix(x.Tag, "s"+strconv.Itoa(sid)+".") || sid == 0 {
+		// (RawRecv hands out an undecodable payload "bad<sid>" as it is: still the stream's own message)
+		if !(strings.HasPrefix(x.Tag, "s"+strconv.Itoa(sid)+".") || x.Tag == "bad"+strconv.Itoa(sid)) || sid == 0 {
 			out = append(out, finding{"C02", "a client call received a message of another stream", x.Line, map[string]any{"rpc": x.R, "stream": sid, "tag": x.Tag}})
 		}
 	}
@@ -353,7 +357,8 @@ func monIsolationOnly(v *runView) (out []finding) {
 	_, byC := received(v)
 	for _, x := range byC {
 		sid := v.rpcSid[x.R]
-		if !strings.HasPrefix(x.Tag, "s"+strconv.Itoa(sid)+".") || sid == 0 {
+		// (RawRecv hands out an undecodable payload "bad<sid>" as it is: still the stream's own message)
+		if !(strings.HasPrefix(x.Tag, "s"+strconv.Itoa(sid)+".") || x.Tag == "bad"+strconv.Itoa(sid)) || sid == 0 {
 			out = append(out, finding{"C02", "a client call received a message of another stream", x.Line, map[string]any{"rpc": x.R, "stream": sid, "tag": x.Tag}})
 		}
 	}
